@@ -260,7 +260,8 @@ theorem loop_spec (rb : LZ.Block → Gen.Block') (flags : Nat) (J : Wrapped → 
           have hlt := hcons hk
           have hk' : ¬ ((k : Int) = 0) := by omega
           rw [if_neg he2, bind_ok]
-          simp only [hk', hk, if_false, if_neg, hlt, if_true]
+          -- the test is `k = 0` (else: continue) or `k ≠ 0` (then: continue), whichever way the source spells it
+          simp only [hk', hk, ne_eq, not_false_eq_true, if_false, if_neg, hlt, if_true]
           exact ih ⟨r', s3⟩ hJ' (by simp only []; omega) _ _ _ _ _
       · have h1 : genErr e ≠ Gen.ErrEmptyBuffer := fun h => hee ((genErr_empty e).1 h)
         rw [if_pos h1, if_pos hee]
@@ -407,7 +408,8 @@ theorem loop_specT (rb : LZ.Block → Gen.Block') (flags : Nat) (J : Wrapped →
             simp [fin, out, hfu, this, he2, rep]
         · have hlt := hcons hk
           have hk' : ¬ ((k : Int) = 0) := by omega
-          simp only [hk', hk, if_false, if_neg, hlt, if_true]
+          -- the test is `k = 0` (else: continue) or `k ≠ 0` (then: continue), whichever way the source spells it
+          simp only [hk', hk, ne_eq, not_false_eq_true, if_false, if_neg, hlt, if_true]
           exact ih ⟨r', s3⟩ (hJ' hk) (by simp only []; omega) _ _ _ _ _
       · have h1 : genErr e ≠ Gen.ErrEmptyBuffer := fun h => hee ((genErr_empty e).1 h)
         rw [if_pos h1, if_pos hee]
